@@ -13,6 +13,8 @@
                                                            {"t":"ver","r":R,"k":K} verified batches of rollup R; for R = ours the
                                                                                  exit root is the L2 tree over its first K leaves
      {"ev":"inject","idx":[..]}                          L1 info leaves whose GER was recorded as injected on the L2
+     {"ev":"reorg","from":B,"inj":[..]}                  both L1 stores were told to forget the blocks >= B (Reorg of their processors);
+                                                           inj = the leaves whose GER is still recorded as injected on the L2
      {"ev":"snap","s":{index, proofs, injected}}         HTTP answers (status, every hash as a structural name)
 
    Names (harness/names): [t |-> "s", h, ls |-> atoms] subtree of an append-only exit tree, [t |-> "u", h, ls |-> <<pos, atom>>..]
@@ -202,6 +204,13 @@ EvBlock ==
                       THEN <<V("INFRA-BlockOrder", Trace[l].num)>> ELSE <<>>)
   /\ l' = l + 1 /\ UNCHANGED <<t, ours, l2, inj, stats, soft>>
 
+(* the L1 was reorged: both L1 stores were told to forget the blocks >= from (the service keeps running) *)
+EvReorg ==
+  /\ Ev("reorg")
+  /\ blocks' = SelectSeq(blocks, LAMBDA b : b.num < Trace[l].from)
+  /\ inj' = { Trace[l].inj[i] : i \in DOMAIN Trace[l].inj }      \* leaves whose GER is still recorded as injected on the L2
+  /\ l' = l + 1 /\ UNCHANGED <<t, ours, l2, stats, soft, viol>>
+
 EvInject ==
   /\ Ev("inject")
   /\ inj' = inj \cup { Trace[l].idx[i] : i \in DOMAIN Trace[l].idx }
@@ -222,7 +231,7 @@ Finish ==
   /\ PrintT(<<"DONE", ToJson([lines |-> Len(Trace), traces |-> t, stats |-> stats, soft |-> soft])>>)
   /\ l' = l + 1 /\ UNCHANGED <<t, ours, blocks, l2, inj, stats, soft, viol>>
 
-Next == EvReset \/ EvL2 \/ EvBlock \/ EvInject \/ EvSnap \/ Finish
+Next == EvReset \/ EvL2 \/ EvBlock \/ EvReorg \/ EvInject \/ EvSnap \/ Finish
 Spec == Init /\ [][Next]_vars
 
 HW == TLCSet(1, IF l > TLCGet(1) THEN l ELSE TLCGet(1))
